@@ -29,13 +29,14 @@ PROP = "C11"
 LEVEL = "exploration"
 RULE = ("(i)/(ii): every message length 0..144 with 2 types each (quick) / 16 seeds each (thorough) written over one hop and "
         "over a routed hop, frame ids incl. 0xFFFF wrap-around, plus for every fragment index k of 2..6-fragment messages the "
-        "fault 'all attempts of fragment k are lost'; (iii): header values swept directly - all 256 types x 256 reserved values, "
+        "fault 'all attempts of fragment k are lost' - for good, or until a seeded instant 0..150 ms later (biased to the 95-150 ms span around the moment the sender gives up) (write() completes the message or gives up and says which); (iii): header values swept directly - all 256 types x 256 reserved values, "
         "all 65 536 frame ids, all 65 536 from/to values, string types, short buffers. Non-trivial: >= 2 fragments on the air or a "
         "direct-evaluation batch; distinct = distinct (length, type, id, fault index)")
 ASSUMPTIONS = ["reference fragmenter/reassembler in checks/netref.py (TMRh20 numbering)", "little-endian host (struct native order = '<' here)"]
 CLAUSES = {"fragments": "ceil(n/24) frames, one id, first/more/last, descending counter, type in the last reserved byte",
            "reassembly": "a TMRh20-style receiver reassembles exactly the original message", "restored": "caller's header shows its original type after sending",
            "layout": "8 bytes: origin, destination, id little-endian 16 bit, type, reserved; short buffers refused"}
+PROBES = ["outage_healed_in_time", "outage_outlasted_the_retries"]
 SHRINK_KEYS = ("msgs", "faults")
 CHUNK = 20
 NDIRECT = 8
@@ -72,6 +73,14 @@ def make(i, base_seed, tier):
         rule = {"src": "n1", "ack": False, "ptype": 150}
     else:
         rule = {"src": "n1", "ack": False, "ptype": 148 if k == 0 else 149, "pres": nfr - k}
+    if j % 2:
+        # the outage heals: fragment k's attempts are lost only until a seeded instant, spread over the whole span in which the
+        # sender keeps retrying (about 95 ms) and beyond - write() then either completes the message or gives up, and must say which
+        hr = stream(seed, "heal")
+        x_ms = hr.uniform(95, 150) if hr.random() < 0.6 else hr.uniform(0, 95)     # the sender gives up about 105-110 ms after the first attempt
+        rule["t1"] = int((2 + x_ms) * MS)
+        return {"seed": seed, "kind": "air", "routed": False, "faults": [rule], "heals": True,
+                "msgs": [{"len": ln, "type": typ, "seed": rng.getrandbits(20), "fid": rng.getrandbits(16), "strtype": False}]}
     return {"seed": seed, "kind": "air", "routed": False, "faults": [rule], "abort_at": k,
             "msgs": [{"len": ln, "type": typ, "seed": rng.getrandbits(20), "fid": rng.getrandbits(16), "strtype": False}]}
 
@@ -117,7 +126,7 @@ def _direct(scn, res):
             if not (chk(a & 0xFFF, 0o1, 1, 2, 3) if part == 2 else chk(0o1, a & 0xFFF, 1, 2, 3)):
                 return
     elif part == 4:
-        for c in range(32, 127):
+        for c in range(0, 256):     # every one-character string whose code fits the type byte (not only ASCII)
             n += 1
             if not chk(0o1, 0o2, 9, c, 0, typ_arg=chr(c)):
                 return
@@ -237,6 +246,13 @@ def _run(scn, w, net, res):
         ref = netref.fragment(0o1, dst, m["fid"], typ, data)
         k = scn.get("abort_at")
         want = ref if k is None else ref[:k + 1]
+        if scn.get("heals"):
+            # write() reported success: every frame of the message must have been emitted; failure: a proper prefix or all of it
+            if c.result:
+                sim.count("outage_healed_in_time")
+            else:
+                sim.count("outage_outlasted_the_retries")
+                want = ref[:len(sent)] if 1 <= len(sent) <= len(ref) else ref
         if sent != want:
             bad = next((j for j in range(min(len(sent), len(want))) if sent[j] != want[j]), min(len(sent), len(want)))
             res.add("fragments", {"kind": "frame_mismatch", "nfrag": min(len(ref), 3), "at": min(bad, 2)},
@@ -247,7 +263,7 @@ def _run(scn, w, net, res):
             res.add("fragments", {"kind": "frame_too_long"}, "a frame longer than 32 bytes was produced")
         if len(ref) > 1:
             res.nontrivial = True
-        if k is None:
+        if k is None and (not scn.get("heals") or c.result):
             # ---- TMRh20-style reassembler on the sniffed frames
             ra = netref.TmrhReassembler()
             for f in sent:
